@@ -6,6 +6,10 @@ ids = [p['id'] for p in props]
 
 # id -> (level, technique, text, note)
 CLAIMED = {
+ "C02": ("exploration", "twin-database monitor (same history with and without user indexes) with index_scan probe and order checker",
+         "Twin databases receive the same DML history; one of them has 1-3 user indexes of every kind. Table contents, every query's multiset (sequence where ORDER BY is total) and the requested order are compared; only queries for which the index_scan probe fired count as non-trivial.",
+         "The index-free twin is the oracle; literals and predicates come from the property's list."),
+
  "C01": ("exploration", "differential monitor against a reference engine (bundled SQLite via rusqlite) with AST-level shrinking",
          "Generated schemas/data are loaded into vibesql and SQLite; generated queries over the shared subset are compared as multisets (sequences when ORDER BY names every output column), INTERSECT/EXCEPT ALL against multiset algebra over the reference's operand results. Failing cases are shrunk and signed by discrepancy kind + feature tags.",
          "SQLite is trusted; only the calibrated subset is compared (no division, LIKE, string-number comparison, large integers)."),
